@@ -21,7 +21,7 @@ inductive Addr where
   | tcp6 (ip : Bytes) (port : Nat)
   | onionV2 (host : Bytes) (port : Nat)
   | onionV3 (host : Bytes) (port : Nat)
-  | opaque (payload : Bytes)
+  | unknown (payload : Bytes)
   deriving Repr, DecidableEq
 
 /-- `WriteTCPAddr` / `WriteOnionAddr` / `WriteOpaqueAddrs` -/
@@ -30,7 +30,7 @@ def encAddr : Addr → Bytes
   | .tcp6 ip p => 2 :: ip ++ encU16 p
   | .onionV2 h p => 3 :: h ++ encU16 p
   | .onionV3 h p => 4 :: h ++ encU16 p
-  | .opaque pl => pl
+  | .unknown pl => pl
 
 def encAddrBody (as : List Addr) : Bytes := (as.map encAddr).flatten
 
@@ -61,7 +61,7 @@ def parseAddrs : Nat → Bytes → Option (List Addr)
         match dec rest with
         | .ok a rest' => (parseAddrs fuel rest').map (a :: ·)
         | _ => none
-      | none => some [.opaque (d :: rest)]                    -- unknown type: keep everything that is left
+      | none => some [.unknown (d :: rest)]                    -- unknown type: keep everything that is left
 
 /-- `lnwire.ReadElement(r, *[]net.Addr)` -/
 def readAddrs : Dec (List Addr) := do
@@ -240,8 +240,13 @@ def Addr.WF : Addr → Prop
   | .tcp6 ip p => ip.length = 16 ∧ WFu16 p
   | .onionV2 h p => h.length = 10 ∧ WFu16 p
   | .onionV3 h p => h.length = 35 ∧ WFu16 p
-  | .opaque _ => False          -- opaque (unknown-type) addresses are outside the encodable domain
-instance decAddrWF : Decidable (Addr.WF a) := by cases a <;> (unfold Addr.WF; infer_instance)
+  | .unknown _ => False          -- opaque (unknown-type) addresses are outside the encodable domain
+instance decAddrWF : (a : Addr) → Decidable a.WF
+  | .tcp4 ip p => inferInstanceAs (Decidable (ip.length = 4 ∧ WFu16 p))
+  | .tcp6 ip p => inferInstanceAs (Decidable (ip.length = 16 ∧ WFu16 p))
+  | .onionV2 h p => inferInstanceAs (Decidable (h.length = 10 ∧ WFu16 p))
+  | .onionV3 h p => inferInstanceAs (Decidable (h.length = 35 ∧ WFu16 p))
+  | .unknown _ => inferInstanceAs (Decidable False)
 
 def Match.WF (m : Match) : Prop :=
   m.ourNonce.length = 32 ∧ m.order.kit.WF ∧ m.multiSigKey.length = 33 ∧ m.nodeKey.length = 33 ∧
